@@ -4,7 +4,7 @@
    the semantic operand sets exactly as the implementation does; those sets are produced by the implementation's
    role assignment, which is compared case by case and checked against architectural roles by the harness. *)
 From Coq Require Import List Bool String.
-From OV Require Import Model.Num Model.Pressure Model.Deps Model.Roles Proofs.DepsScan Proofs.Roles.
+From OV Require Import Model.Num Model.Pressure Model.Deps Model.Roles Proofs.DepsScan Proofs.Roles Proofs.DepsGraph.
 Import ListNotations.
 
 (* an edge A -> B that is not a store-to-load edge exists iff B (one of the instructions after A) reads a register
@@ -33,6 +33,26 @@ Theorem C03_edge_weight : forall (T : Type) (N : NumOps T) fwd pidx (l : line (T
   edge_weight N fwd pidx l FPlain = l_lat_wo l /\ edge_weight N fwd pidx l FPIndexed = pidx /\
   edge_weight N fwd pidx l FStoreLoad = nadd N (l_lat_wo l) fwd.
 Proof. intros. repeat split. Qed.
+
+(* ---- kernel level: the dependency graph create_DG builds ---- *)
+(* an edge of the graph is the load stage of an instruction or a report of the scan of one instruction A = k[i] over the
+   instructions after it, weighted as C03_edge_weight says; networkx keeps ONE edge per pair (the last report wins) *)
+Theorem C03_graph_edges_are_scan_reports : forall (T : Type) (N : NumOps T) dep fwd pidx fd (k : list (line (T:=T))) u t,
+  (exists w, In (u, t, w) (create_dg N dep fwd pidx fd k)) <->
+  (exists pre A post w, k = pre ++ A :: post /\
+      ((u = (l_no A, true) /\ t = l_no A /\ l_loadnode A = true /\ w = nsub N (l_lat A) (l_lat_wo A)) \/
+       (u = (l_no A, false) /\ exists f, In (t, f) (find_depending dep fd A post) /\ w = edge_weight N fwd pidx A f))).
+Proof.
+  intros T N dep fwd pidx fd k u t. rewrite (create_dg_edges N dep fwd pidx fd k u t). split.
+  - intros (w & H). apply (emit_spec N dep fwd pidx fd) in H. destruct H as (pre & A & post & E & HA). exists pre, A, post, w. auto.
+  - intros (pre & A & post & w & E & HA). exists w. apply (emit_spec N dep fwd pidx fd). exists pre, A, post. auto.
+Qed.
+Print Assumptions C03_graph_edges_are_scan_reports.
+
+Theorem C03_graph_one_edge_per_pair : forall (T : Type) (N : NumOps T) dep fwd pidx fd (k : list (line (T:=T))) u t w1 w2,
+  In (u, t, w1) (create_dg N dep fwd pidx fd k) -> In (u, t, w2) (create_dg N dep fwd pidx fd k) -> w1 = w2.
+Proof. intros T N dep fwd pidx fd k. exact (create_dg_one_edge_per_pair N dep fwd pidx fd k). Qed.
+Print Assumptions C03_graph_one_edge_per_pair.
 
 (* ---- roles (Model/Roles.v) ---- *)
 (* a dependency-breaking zero idiom written with equal register operands reads nothing *)
